@@ -117,6 +117,12 @@ func (w *World) userBody(ui int) {
 		case "count":
 			w.userCount()
 			continue
+		case "validate", "countx", "dup", "duplistener", "duplistener-bad", "register-none", "stopctx":
+			w.userControl(ui, op)
+			continue
+		case "register", "enroll":
+			w.userRegister(ui, op)
+			continue
 		case "stop":
 			if !w.booted {
 				vsched.Block("user:wait-boot", func() bool { return w.booted || w.runDone })
